@@ -299,6 +299,9 @@ pub fn mutate_structural(file: &[u8], rng: &mut Rng) -> (String, Vec<u8>) {
         c.crc = None;
     }
     let n = chunks.len();
+    if n == 0 {
+        return ("no-chunks".into(), file.to_vec());
+    }
     let i = rng.below(n as u64) as usize;
     let label;
     match rng.below(12) {
@@ -347,7 +350,7 @@ pub fn mutate_structural(file: &[u8], rng: &mut Rng) -> (String, Vec<u8>) {
         }
         8 => {
             // change a field of the first fcTL / IHDR
-            if let Some(c) = chunks.iter_mut().find(|c| &c.ty == b"fcTL" || &c.ty == b"IHDR") {
+            if let Some(c) = chunks.iter_mut().find(|c| (&c.ty == b"fcTL" || &c.ty == b"IHDR") && !c.data.is_empty()) {
                 let k = rng.below(c.data.len() as u64) as usize;
                 c.data[k] = *rng.pick(&[0u8, 1, 2, 3, 5, 7, 8, 9, 16, 17, 255]);
             }
